@@ -5,6 +5,7 @@ go 1.18
 require (
 	github.com/fatih/color v1.18.0
 	github.com/rhysd/actionlint v0.0.0
+	gopkg.in/yaml.v3 v3.0.1
 )
 
 require (
@@ -17,7 +18,6 @@ require (
 	github.com/robfig/cron/v3 v3.0.1 // indirect
 	golang.org/x/sync v0.10.0 // indirect
 	golang.org/x/sys v0.29.0 // indirect
-	gopkg.in/yaml.v3 v3.0.1 // indirect
 )
 
 replace github.com/rhysd/actionlint => /repo
